@@ -24,7 +24,7 @@ From KV Require Import Lib.Bits Lib.Bytes Lib.Varint Model.MsgSetReader Model.Re
   Proofs.ReaderBatch Proofs.ReaderProofs Proofs.ReaderLTS
   Proofs.ReaderPrim Proofs.ReaderV2 Proofs.ReaderV2Run Proofs.ReaderV2Sound Proofs.ReaderV2Final
   Proofs.ReaderV1 Proofs.ReaderV1Run Proofs.ReaderV1Final Proofs.ReaderMixedFinal
-  Proofs.ReaderWrap Proofs.ReaderWrapInner Proofs.ReaderWrapRun Proofs.ReaderWrapFinal.
+  Proofs.ReaderWrap Proofs.ReaderWrapInner Proofs.ReaderWrapRun Proofs.ReaderWrapFinal Proofs.ReaderClose.
 Import ListNotations.
 Open Scope Z_scope.
 
@@ -289,6 +289,32 @@ Theorem C02_conn_offset_advances : forall decomp fuel o hwm bytes remain late ms
   o <= f /\ Forall (fun g => o <= g_off g < f) ms.
 Proof. exact conn_offset_advances. Qed.
 Print Assumptions C02_conn_offset_advances.
+
+
+(* Batch.Close after the run ([fetch_close]: messages, last error, Conn.offset, Close's result,
+   whether the library closes the connection) leaves the offset of the run *)
+Theorem C02_close_keeps_run_offset : forall decomp fuel offset hwm i remain late,
+  fetch_run decomp fuel offset hwm i remain late
+  = match fetch_close decomp fuel offset hwm i remain late with
+    | Some (ms, e, off, _, _) => Some (ms, e, off)
+    | None => None
+    end.
+Proof. exact fetch_close_run. Qed.
+Print Assumptions C02_close_keeps_run_offset.
+
+(* a connection cut inside the COMPRESSED payload of a v2 batch that the response announces whole
+   ([cut_payload]: the batch header is current, its payload size fits the announced rest of the
+   response, fewer bytes than the payload arrive): nothing of the batch is delivered, the run
+   ends with an I/O error, Conn.offset after Close is the offset before the batch was entered —
+   it never passes the records that did not arrive —, Close returns the error and the library
+   closes the connection *)
+Theorem C02_cut_in_compressed_payload : forall decomp fuel m m1 co off last late acc,
+  m_empty m = false -> read_header (S fuel) m = MOk tt m1 -> cut_payload m1 ->
+  exists b',
+    batch_run_b decomp (S fuel) (mkBatch (Some m) true co off last None late) acc = Some (rev acc, EIO, b')
+    /\ b_off b' = off /\ batch_close b' = (off, true) /\ batch_close_err b' = Some EIO.
+Proof. exact cut_in_compressed_payload. Qed.
+Print Assumptions C02_cut_in_compressed_payload.
 
 (* regression: the witnesses of the three defects fixed in /repo now meet the property *)
 Example C02_regression_empty_tail_batch :
